@@ -50,9 +50,10 @@ SPECIAL_TAG = ["@", "@@", "@1", "@a:b", "@a#b", "@<a>", "@|", "@\\", "@" + "t" *
 
 
 class Gen:
-    def __init__(self, rnd, dialect, size="medium", rare=False, ascii_only=False, special=0.0, deep=False, default_dialect="en"):
+    def __init__(self, rnd, dialect, size="medium", rare=False, ascii_only=False, special=0.0, deep=False, default_dialect="en", dup=0.0):
         self.default_dialect = default_dialect       # dialect of the matcher that will read the text: no header needed for it
         self.special = special
+        self.dup = dup                                # probability of drawing names/texts/cells/tags from a tiny pool: repeated lines
         self.deep = deep
         self.r = rnd
         self.d = dialect
@@ -77,6 +78,9 @@ class Gen:
         if self.special and r.random() < self.special:
             self.stat("special_values")
             return r.choice(SPECIAL_TEXT)
+        if self.dup and r.random() < self.dup:
+            self.stat("repeated_values")
+            return r.choice(("same", "x y", "dup"))
         n = r.randint(0 if allow_empty else 1, maxlen)
         alpha = ALPHA[:45] if self.ascii_only else ALPHA
         cs = [r.choice(alpha) for _ in range(n)]
@@ -222,7 +226,14 @@ class Gen:
             i = self.ind()
             line = i
             ln = len(self.lines) + 1
-            for _ in range(r.randint(1, 3) if not self.special else r.choice([1, 2, 3, 10, 12])):
+            dup_line = bool(self.dup) and r.random() < self.dup
+            for _ in range(r.choice([1, 1, 2]) if dup_line else r.randint(1, 3) if not self.special else r.choice([1, 2, 3, 10, 12])):
+                if dup_line:
+                    # tag lines that are identical up to their indentation
+                    name = r.choice(("@dup", "@d2"))
+                    out.append({"location": {"line": ln, "column": len(line) + 1}, "name": name})
+                    line += name + " "
+                    continue
                 chars = "abcXYZ09_-#:.<>|\\é\U0001F600" if not self.ascii_only else "abcXYZ09_-#:."
                 name = "@" + "".join(r.choice(chars) for _ in range(r.randint(1, 4)))
                 if self.special and r.random() < self.special:
@@ -234,7 +245,10 @@ class Gen:
                         name = "@"
                 out.append({"location": {"line": ln, "column": len(line) + 1}, "name": name})
                 line += name + r.choice([" ", "  ", "\t", ""])
-            if r.random() < 0.2:
+            if dup_line:
+                self.emit(line.rstrip(), "TagLine")
+                self.stat("tags.repeated_lines")
+            elif r.random() < 0.2:
                 line = line.rstrip() + r.choice([" ", "\t"]) + "#trailing @notatag"
                 self.emit(line, "TagLine")
                 self.stat("tags.trailing_comment")
@@ -479,13 +493,13 @@ class Rendered:
     __slots__ = ("text", "lines", "kinds", "ast", "nl", "final_nl", "dialect", "stats", "seed", "default_dialect")
 
 
-def render(rnd, dialect=None, size="medium", rare=False, ascii_only=False, nl=None, default_dialect="en", special=0.0, deep=False):
+def render(rnd, dialect=None, size="medium", rare=False, ascii_only=False, nl=None, default_dialect="en", special=0.0, deep=False, dup=0.0):
     """-> Rendered.  With default_dialect != 'en' the language header is omitted when the
     document's dialect equals the matcher's default."""
     names = list(dialects.master())
     if dialect is None:
         dialect = "en" if rnd.random() < 0.4 else rnd.choice(names)
-    g = Gen(rnd, dialect, size, rare, ascii_only, special, deep, default_dialect)
+    g = Gen(rnd, dialect, size, rare, ascii_only, special, deep, default_dialect, dup)
     ast = g.doc()
     out = Rendered()
     out.nl = nl or rnd.choice(["\n", "\n", "\r\n"])
